@@ -3,6 +3,7 @@ import GV.Model.Slice
 import GV.Model.Heap
 import GV.Spec.Slice
 import GV.Spec.GoValue
+import GV.Model.Ptr
 
 /-!
   Line protocol of `gvdriver_c07` (topics `slice` and `heap`); see checks/c07.py for the generator.
@@ -329,7 +330,26 @@ where
     | fuel + 1, .array n t => (List.range n).flatMap fun i => (leafPathsAux fuel t).map (i :: ·)
     | _ + 1, _ => [[]]
 
+/-! ### ptr topic: `$indexPtr` — element pointers of one array (object 0); `off` = start of a second view of the
+    same backing store (typed `subarray`), the second pointer is taken through that view -/
+open GV.Ptr in
+def handlePtr : List String → String
+  | ["index", _k, n, off, i, j, v] =>
+    match n.toNat?, off.toNat?, i.toNat?, j.toNat?, v.toInt? with
+    | some n, some off, some i, some j, some v =>
+      let (H, _) := Heap.alloc Heap.empty ((List.range n).map fun k => ((k : Int) + 1))
+      let P0 : PHeap := { heap := H, ptrs := [] }
+      let (P1, p) := addrCell P0 { obj := 0, slot := i }
+      let (P2, q) := addrCell P1 { obj := 0, slot := off + j }
+      let P3 := store P2 p v
+      let (P4, p') := addrCell P3 { obj := 0, slot := i }
+      let g := match load P3 q with | some x => toString x | none => "none"
+      s!"eq={b (p == q)} get={g} cell={P3.heap.cell 0 i} again={b (p' == p)} count={P4.ptrs.length}"
+    | _, _, _, _, _ => "bad-op"
+  | _ => "bad-op"
+
 def handle : List String → String
+  | "ptr" :: rest => handlePtr rest
   | ["slice", "prog", p] => runSliceProg p
   | "slice" :: rest => handleSlice rest
   | "heap" :: rest => handleHeap rest
